@@ -1,11 +1,15 @@
 //! Suite "run": executes interpreter steps / PushInterpreter::run on a whole PushState given on the wire.
+//! Suite "graphq": the same, with HashMap-ordered results canonicalised (top INTVECTOR sorted, lines of the
+//! top NAME sorted) — see coq/theories/Suites/SGraphQ.v.
 //! Suite "names": the names registered by InstructionSet::load().
-use crate::conv::{state_to_sx, sx_to_state};
+//! Node ids: the id protocol is described in the header of coq/theories/Model/IGraph.v.
+use crate::conv::{state_to_sx, sx_to_state_at, BuildErr};
 use crate::sx::Sx;
 use pushr::push::instructions::InstructionSet;
 use pushr::push::interpreter::{PushInterpreter, PushInterpreterState};
+use pushr::push::state::PushState;
 
-pub const SUITES: &[(&str, fn(&Sx) -> Sx)] = &[("run", run), ("names", names)];
+pub const SUITES: &[(&str, fn(&Sx) -> Sx)] = &[("run", run), ("graphq", graphq), ("names", names)];
 
 fn names(_c: &Sx) -> Sx {
     let mut is = InstructionSet::new();
@@ -15,30 +19,108 @@ fn names(_c: &Sx) -> Sx {
     Sx::list(l.iter(), |n| Sx::str(n))
 }
 
-fn run(c: &Sx) -> Sx {
-    let go = || -> Option<Sx> {
-        let c = c.as_l()?;
-        let mut st = sx_to_state(c.get(2)?)?;
-        let mode = c.get(3)?.as_z()?;
-        let arg = c.get(4)?.as_z()?;
-        let mut is = InstructionSet::new();
-        is.load();
-        if mode == 0 {
-            let icache = is.cache();
-            let mut fin = false;
-            for _ in 0..arg {
-                if PushInterpreter::step(&mut st, &mut is, &icache) { fin = true; break; }
-            }
-            Some(Sx::L(vec![Sx::b(fin), state_to_sx(&st)]))
-        } else {
-            let o = match PushInterpreter::run(&mut st, &mut is) {
-                PushInterpreterState::NoErrors => 0,
-                PushInterpreterState::StepLimitExceeded => 1,
-                PushInterpreterState::TimeLimitExceeded => 2,
-                PushInterpreterState::GrowthCapExceeded => 3,
-            };
-            Some(Sx::L(vec![Sx::Z(o), state_to_sx(&st)]))
+extern "C" {
+    fn dup(fd: i32) -> i32;
+    fn dup2(old: i32, new: i32) -> i32;
+    fn close(fd: i32) -> i32;
+}
+
+/// While alive, file descriptor 1 points at /dev/null: instruction bodies that `println!` (GRAPH.EDGE*HISTORY)
+/// must not write into the result stream.  Restored on drop, also when the steps panic.
+struct Silence { saved: i32 }
+impl Silence {
+    fn new() -> Silence {
+        use std::io::Write;
+        use std::os::unix::io::AsRawFd;
+        let _ = std::io::stdout().flush();
+        let saved = unsafe { dup(1) };
+        if let Ok(f) = std::fs::OpenOptions::new().write(true).open("/dev/null") {
+            unsafe { dup2(f.as_raw_fd(), 1); }
         }
-    };
-    go().unwrap_or_else(Sx::bad)
+        Silence { saved }
+    }
+}
+impl Drop for Silence {
+    fn drop(&mut self) {
+        use std::io::Write;
+        let _ = std::io::stdout().flush();
+        if self.saved >= 0 { unsafe { dup2(self.saved, 1); close(self.saved); } }
+    }
+}
+
+/// A case whose node ids lie below the counter of this process: run it in a fresh process (counter = 1).
+fn in_fresh_process(suite: &str, c: &Sx) -> Sx {
+    use std::io::Write;
+    use std::process::{Command, Stdio};
+    if std::env::var("PUSHR_HARNESS_CHILD").is_ok() { return Sx::bad(); }
+    let exe = match std::env::current_exe() { Ok(e) => e, Err(_) => return Sx::bad() };
+    let mut line = String::from(suite);
+    line.push(' ');
+    c.print(&mut line);
+    line.push('\n');
+    let child = Command::new(exe).env("PUSHR_HARNESS_CHILD", "1").stdin(Stdio::piped()).stdout(Stdio::piped()).stderr(Stdio::null()).spawn();
+    let mut child = match child { Ok(c) => c, Err(_) => return Sx::bad() };
+    if child.stdin.take().map(|mut i| i.write_all(line.as_bytes())).is_none() { return Sx::bad(); }
+    let out = match child.wait_with_output() { Ok(o) => o, Err(_) => return Sx::bad() };
+    let text = String::from_utf8_lossy(&out.stdout);
+    let first = text.lines().next().unwrap_or("");
+    match Sx::parse(first) {
+        Ok(Sx::L(v)) if v.len() == 2 && v[0] == Sx::Z(0) => v[1].clone(),
+        Ok(Sx::L(v)) if v.len() == 1 && v[0] == Sx::Z(1) => panic!("panicked in the child process"),
+        _ => Sx::bad(),
+    }
+}
+
+/// (finished / outcome, final state) of a `run` case; Err(Regress) = needs a fresh process
+fn exec(c: &Sx) -> Result<(Sx, PushState), BuildErr> {
+    let c = c.as_l().ok_or(BuildErr::Bad)?;
+    if c.len() != 6 { return Err(BuildErr::Bad); }
+    let mode = c[3].as_z().ok_or(BuildErr::Bad)?;
+    let arg = c[4].as_z().ok_or(BuildErr::Bad)?;
+    let next_node = c[5].as_l().and_then(|w| w.get(0)).and_then(|z| z.as_z()).ok_or(BuildErr::Bad)?;
+    let mut st = sx_to_state_at(&c[2], next_node)?;
+    let mut is = InstructionSet::new();
+    is.load();
+    let _quiet = Silence::new();
+    if mode == 0 {
+        let icache = is.cache();
+        let mut fin = false;
+        for _ in 0..arg {
+            if PushInterpreter::step(&mut st, &mut is, &icache) { fin = true; break; }
+        }
+        Ok((Sx::b(fin), st))
+    } else {
+        let o = match PushInterpreter::run(&mut st, &mut is) {
+            PushInterpreterState::NoErrors => 0,
+            PushInterpreterState::StepLimitExceeded => 1,
+            PushInterpreterState::TimeLimitExceeded => 2,
+            PushInterpreterState::GrowthCapExceeded => 3,
+        };
+        Ok((Sx::Z(o), st))
+    }
+}
+
+fn run(c: &Sx) -> Sx {
+    match exec(c) {
+        Ok((o, st)) => Sx::L(vec![o, state_to_sx(&st)]),
+        Err(BuildErr::Regress) => in_fresh_process("run", c),
+        Err(BuildErr::Bad) => Sx::bad(),
+    }
+}
+
+fn graphq(c: &Sx) -> Sx {
+    match exec(c) {
+        Ok((o, mut st)) => {
+            // canonical forms of the HashMap-ordered results
+            if let Some(v) = st.int_vector_stack.get_mut(0) { v.values.sort(); }
+            if let Some(n) = st.name_stack.get_mut(0) {
+                let mut lines: Vec<String> = n.split('\n').map(|l| l.trim_end_matches(|ch| ch == ',' || ch == ' ').to_string()).collect();
+                lines.sort();
+                *n = lines.join("\n");
+            }
+            Sx::L(vec![o, state_to_sx(&st)])
+        }
+        Err(BuildErr::Regress) => in_fresh_process("graphq", c),
+        Err(BuildErr::Bad) => Sx::bad(),
+    }
 }
